@@ -57,6 +57,8 @@ def budget(tier):
 
 
 def gen(rng, i, tier):
+    if i % 6 == 5:      # targeted stream: state surviving between the runs of the iterated variant
+        return mesgen.gen_stale(rng)
     case = mesgen.gen_election(rng)
     case = mesgen.gen_config(rng, case, allow_irresolute=False)
     if case["solver"]:
@@ -159,6 +161,7 @@ def stats(cases, obs):
         d["by_ballot"][c["ballot"]] = d["by_ballot"].get(c["ballot"], 0) + 1
         d["by_sat"][c["sat"]] = d["by_sat"].get(c["sat"], 0) + 1
         d["multi"] += bool(c["multi"])
+        d["stale_state_stream"] = d.get("stale_state_stream", 0) + (c.get("stream") == "stale")
         d["iterated"] += c["inc"] is not None
         if c["inc"] is not None and pb.F(o["final_budget"]) > pb.F(c["budget"]):
             d["iterated_inflated"] += 1
